@@ -42,7 +42,10 @@ PROPS = {
                 assumptions=["REDUCED to the id-allocation core: SimpleMarkerAllocator::allocate / retrieve_entity_internal / SimpleMarker::id. The load driver (serde), MarkerAllocator::retrieve_entity and mark (they create through the shared entities resource while a WriteStorage borrows it: not expressible under the N3 sequentialisation; mark also uses a closure capturing &mut), maintain (iterator adaptors) and the UUID allocator are outside",
                              "machine arithmetic: an explicit id must be < u64::MAX and fewer than 2^64 marks are counted; for id == u64::MAX `self.index = id + 1` overflows (panic in debug, wrap to 0 in release, after which fresh ids can collide) — recorded in DESIGN.md §7 as an edge-input observation outside the contract",
                              "std::collections::HashMap behaves as vstd's map model for u64 keys (vstd's assumed specification of std)"]),
-    'C05': dict(units=['world'], witness='alloc',
+    'C11': dict(units=['data'], witness=None,
+                assumptions=["REDUCED to the specs-side half: reads()/writes() of ReadStorage and WriteStorage list exactly the resources their fetch() borrows, with the right mode. That shred's dispatcher stages systems by these declarations, runs each system exactly once, respects dependencies and never hits a borrow conflict is a property of the shred dependency and of concurrent execution: assumed, not decided here",
+                             "which resource a handle borrows is fixed by its type (Fetch<'a, R> / FetchMut<'a, R> borrow resource R: shred's fetch is TypeId-indexed); ResourceId::new::<R>() is abstracted by rid::<R>()"]),
+    'C05': dict(units=['world', 'data', 'storage'], witness='alloc',
                 assumptions=[HEADROOM, "WorldExt::delete_components is an ASSUMED contract (its body iterates shred's MetaTable<dyn AnyStorage>): it removes exactly the given indices from every listed storage and touches nothing else",
                              "World accessors (entities_mut, write_resource) are stubs with the documented shred behaviour; LazyUpdate::maintain is unconstrained"]),
 }
@@ -50,6 +53,10 @@ PROPS = {
 TB = "Trusted: prelude stubs for hibitset / NonZeroI32 / atomics / Vec::extend (assumed contracts), N3 sequentialisation, headroom preconditions, Verus+Z3, the vx extractor's closed list of normalisations (each application recorded in the evidence)."
 
 MANIFEST_TEXT = {
+    'C11': dict(
+        level="Reduced unbounded proof: for ReadStorage and WriteStorage, Verus proves reads() and writes() return exactly the resource ids of the handles fetch() constructs (entities shared + storage shared, resp. entities shared + storage exclusive) and that Storage::new stores exactly those two handles. The scheduling half of the property (shred's dispatcher) is an assumed dependency contract and is stated as such in the evidence.",
+        design_ref='DESIGN.md §5 C11', note='shred World/Fetch/ResourceId stubs; dispatcher behaviour assumed.',
+        technique='Verus postconditions on the four extracted declaration/fetch functions per storage handle type'),
     'C15': dict(
         level="Reduced unbounded proof of the uniqueness mechanism: invariant 'every id in the table is below the counter' is preserved by allocate; a counted id is the old counter (hence not in the table); an explicit id bumps the counter to max(counter, id+1); the table gains exactly (id -> entity) overwriting a stale entry; lookup is the table lookup. Merge-by-marker at the World level is outside (see assumptions).",
         design_ref='DESIGN.md §5 C15', note='vstd model of std HashMap; arithmetic headroom precondition; everything above allocate is outside.',
